@@ -174,7 +174,10 @@ def run_blocks(src: str, script: Sequence[str]) -> Dict[str, Any]:
                     if node.value is None:
                         return None
                     return eval(compile(ast.fix_missing_locations(ast.Expression(body=node.value)), "<blk>", "eval"), ns)
-                if isinstance(node, ast.expr):
+                if isinstance(node, ast.Expr) and two and k == len(tree) - 1:
+                    # the header of a desugared for-loop carries its test as an expression statement
+                    val = eval(compile(ast.fix_missing_locations(ast.Expression(body=node.value)), "<blk>", "eval"), ns)
+                elif isinstance(node, ast.expr):
                     val = eval(compile(ast.fix_missing_locations(ast.Expression(body=node)), "<blk>", "eval"), ns)
                 else:
                     exec(compile(ast.fix_missing_locations(ast.Module(body=[node], type_ignores=[])), "<blk>", "exec"), ns)
